@@ -289,13 +289,17 @@ def run(prog: Program) -> Results:
                            f"not index-aligned (attrpath families occupy one entry in values and several in the order)")
                 else:
                     # the delete must be guarded by a test on the loop's element in the same iteration
+                    # (stated on paths: every way from the loop head to the deletion takes a branch that tested the element, so
+                    # `if match: del …` and `if not match: continue` / `del …` are the same guard)
                     elem = loop.target.elts[1]
                     guard = None
-                    cur = pm.get(m.node)
-                    while cur is not None and cur is not loop:
-                        if isinstance(cur, ast.If) and any(isinstance(x, ast.Name) and x.id == getattr(elem, "id", None) for x in ast.walk(cur.test)):
-                            guard = cur
-                        cur = pm.get(cur)
+                    from sa.cfg import CFG as _C3, edges_establishing as _ee3
+                    c3 = _C3(f.node)
+                    eid = getattr(elem, "id", None)
+                    e3 = _ee3(c3, lambda at_, tr_: any(isinstance(x, ast.Name) and x.id == eid for x in ast.walk(at_)))
+                    ln, dn3 = c3.node_of(loop), (c3.node_of(m.node) or c3.containing(m.node))
+                    if ln is not None and dn3 is not None and e3 and dn3 not in c3.reachable(ln, removed_edges=e3):
+                        guard = True
                     reassigned = any(isinstance(x, ast.Name) and x.id == idx.id and isinstance(x.ctx, ast.Store) for x in ast.walk(ast.Module(body=loop.body, type_ignores=[])))
                     if guard is None:
                         why = "the deletion is not guarded by a test on the loop's current element"
